@@ -130,6 +130,7 @@ class layout_right::mapping {
         MDSPAN_IMPL_PROPOSED_NAMESPACE::detail::is_layout_right_padded_mapping<_Mapping>::value
         && std::is_constructible_v<extents_type, typename _Mapping::extents_type>))
     MDSPAN_CONDITIONAL_EXPLICIT((!std::is_convertible_v<typename _Mapping::extents_type, extents_type>))
+    MDSPAN_INLINE_FUNCTION constexpr
     mapping(const _Mapping &__other) noexcept
         : __extents(__other.extents())
     {
